@@ -2,5 +2,5 @@
 From Verif Require Import Config ConfigAlias.
 Require Extraction ExtrOcamlBasic.
 Extraction Language OCaml.
-Extraction "model.ml" du du_all lookup hmerge_scenario tmerge_all has_src erase deep_update_copies_deeply
+Extraction "model.ml" du du_all lookup hmerge_scenario hmerge_dag_scenario dag_expand deep_update_rebuilds_copy tmerge_all has_src erase deep_update_copies_deeply
   new_builder bapply bcreate_st papply view empty_proc ctx_report create_detaches_config cli_ops cli_args config_value config_value_as_bool config_value_as_dict config_value_as_list observe_ctx resolve_language get_config_value_raw section_of language_init lang_kind_of.
